@@ -6,9 +6,11 @@ package main
 
 import (
 	"fmt"
+	"go/constant"
 	"go/token"
 	"go/types"
 	"sort"
+	"strconv"
 	"strings"
 
 	"golang.org/x/tools/go/ssa"
@@ -17,13 +19,51 @@ import (
 const maxTermDepth = 14
 
 type termer struct {
-	c    *Ctx
-	phis map[*ssa.Phi]bool
+	c       *Ctx
+	phis    map[*ssa.Phi]bool
+	binding map[*ssa.Parameter]int
+	inl     int
 }
 
 func (c *Ctx) term(v ssa.Value) string {
-	t := &termer{c: c, phis: map[*ssa.Phi]bool{}}
+	t := &termer{c: c, phis: map[*ssa.Phi]bool{}, binding: map[*ssa.Parameter]int{}}
 	return t.term(v, 0)
+}
+
+// inlineResult: the term of result #idx of a call to a new function: the
+// returned expression(s) with the callee's parameters bound to this call's arguments.
+func (t *termer) inlineResult(call *ssa.Call, idx int, d int) (string, bool) {
+	c := t.c
+	cal := call.Common().StaticCallee()
+	if cal == nil || !c.isNew(cal) || t.inl > 2 {
+		return "", false
+	}
+	rets := returnsOf(cal)
+	if len(rets) == 0 {
+		return "", false
+	}
+	c.frames = append(c.frames, call)
+	t.inl++
+	set := map[string]bool{}
+	for _, r := range rets {
+		if idx < len(r.Results) {
+			set[t.term(r.Results[idx], d+1)] = true
+		}
+	}
+	t.inl--
+	c.frames = c.frames[:len(c.frames)-1]
+	var ss []string
+	for s := range set {
+		ss = append(ss, s)
+	}
+	sort.Strings(ss)
+	if len(ss) == 0 {
+		return "", false
+	}
+	if len(ss) == 1 {
+		return ss[0], true
+	}
+	return "phi{" + strings.Join(ss, " | ") + "}", true
 }
 
 func typeName(t types.Type) string {
@@ -152,6 +192,13 @@ func (c *Ctx) cellRoot(v ssa.Value) (ssa.Value, bool) {
 func (c *Ctx) resolve(v ssa.Value) ssa.Value {
 	for i := 0; i < 16; i++ {
 		switch x := v.(type) {
+		case *ssa.Parameter:
+			// a parameter of a virtually inlined (new) helper is the argument at its call site
+			if a, ok := c.paramBinding(x); ok && a != v {
+				v = a
+				continue
+			}
+			return v
 		case *ssa.ChangeType:
 			v = x.X
 		case *ssa.MakeInterface:
@@ -246,6 +293,14 @@ func (t *termer) term(v ssa.Value, d int) string {
 	case *ssa.Const:
 		return c.constName(x)
 	case *ssa.Parameter:
+		if t.binding[x] < 3 {
+			if a, ok := c.paramBinding(x); ok {
+				t.binding[x]++
+				s := t.term(a, d+1)
+				t.binding[x]--
+				return s
+			}
+		}
 		for i, p := range x.Parent().Params {
 			if p == x {
 				return fmt.Sprintf("P%d", i)
@@ -277,6 +332,9 @@ func (t *termer) term(v ssa.Value, d int) string {
 			case *ssa.FieldAddr:
 				return fieldName(a.X.Type(), a.Field) + "(" + t.term(a.X, d+1) + ")"
 			case *ssa.IndexAddr:
+				if s, ok := t.canonIndexed(a.X, a.Index, d); ok {
+					return s
+				}
 				return "idx(" + t.term(a.X, d+1) + ", " + t.term(a.Index, d+1) + ")"
 			case *ssa.Global:
 				return t.term(a, d+1)
@@ -302,15 +360,28 @@ func (t *termer) term(v ssa.Value, d int) string {
 	case *ssa.IndexAddr:
 		return "&idx(" + t.term(x.X, d+1) + ", " + t.term(x.Index, d+1) + ")"
 	case *ssa.Index:
+		if s, ok := t.canonIndexed(x.X, x.Index, d); ok {
+			return s
+		}
 		return "idx(" + t.term(x.X, d+1) + ", " + t.term(x.Index, d+1) + ")"
 	case *ssa.Lookup:
 		return "lookup(" + t.term(x.X, d+1) + ", " + t.term(x.Index, d+1) + ")"
 	case *ssa.Slice:
+		if s, ok := t.canonSlice(x, d); ok {
+			return s
+		}
 		return "slice(" + t.term(x.X, d+1) + ", " + t.term(x.Low, d+1) + ", " + t.term(x.High, d+1) + ")"
 	case *ssa.BinOp:
 		return "(" + t.term(x.X, d+1) + " " + x.Op.String() + " " + t.term(x.Y, d+1) + ")"
 	case *ssa.Call:
 		cc := x.Common()
+		if x.Type() != nil {
+			if _, isTuple := x.Type().(*types.Tuple); !isTuple {
+				if s, ok := t.inlineResult(x, 0, d); ok {
+					return s
+				}
+			}
+		}
 		if cc.IsInvoke() {
 			return c.calleeName(cc) + "(" + t.term(cc.Value, d+1) + "; " + t.args(cc.Args, d) + ")"
 		}
@@ -318,10 +389,20 @@ func (t *termer) term(v ssa.Value, d int) string {
 			if _, isB := cc.Value.(*ssa.Builtin); isB {
 				return n + "(" + t.args(cc.Args, d) + ")"
 			}
+			if (n == "reflect.Indirect" || n == "(reflect.Value).Elem") && len(cc.Args) == 1 {
+				if in, ok := c.resolve(cc.Args[0]).(*ssa.Call); ok && c.calleeName(in.Common()) == "reflect.New" {
+					return "fresh(" + t.term(in.Call.Args[0], d+1) + ")"
+				}
+			}
 			return "call:" + n + "(" + t.args(cc.Args, d) + ")"
 		}
 		return "dyncall(" + t.term(cc.Value, d+1) + "; " + t.args(cc.Args, d) + ")"
 	case *ssa.Extract:
+		if call, ok := x.Tuple.(*ssa.Call); ok {
+			if s, ok := t.inlineResult(call, x.Index, d); ok {
+				return s
+			}
+		}
 		return t.term(x.Tuple, d+1) + "#" + fmt.Sprint(x.Index)
 	case *ssa.Phi:
 		if t.phis[x] {
@@ -417,8 +498,71 @@ func isLenCall(v ssa.Value) (ssa.Value, bool) {
 }
 
 // cond normalises a boolean SSA value into a literal.
+// hasLit: conditions equivalent to "sep occurs in x": len(SplitN(x,sep,2)) == 2, Index(x,sep) >= 0, Contains(x,sep).
+func (c *Ctx) hasLit(v ssa.Value) (Lit, bool) {
+	t := &termer{c: c, phis: map[*ssa.Phi]bool{}, binding: map[*ssa.Parameter]int{}}
+	mk := func(x ssa.Value, sep string, pos bool) (Lit, bool) {
+		return Lit{"has(" + t.term(x, 1) + ", " + strconv.Quote(sep) + ")", pos}, true
+	}
+	switch x := v.(type) {
+	case *ssa.Call:
+		if c.calleeName(x.Common()) == "strings.Contains" {
+			if s, ok := constStr(x.Call.Args[1]); ok {
+				return mk(x.Call.Args[0], s, true)
+			}
+		}
+	case *ssa.BinOp:
+		a, b := c.resolve(x.X), c.resolve(x.Y)
+		// len(SplitN(x,sep,2)) ==/!= 2 ; > 1 ; < 2
+		for k := 0; k < 2; k++ {
+			if arg, isLen := isLenCall(a); isLen {
+				if sx, sep, ok := t.splitCall(arg); ok {
+					if n, isN := constInt(b); isN {
+						op := x.Op
+						if k == 1 { // operands swapped: mirror the operator
+							switch op {
+							case token.LSS:
+								op = token.GTR
+							case token.GTR:
+								op = token.LSS
+							case token.LEQ:
+								op = token.GEQ
+							case token.GEQ:
+								op = token.LEQ
+							}
+						}
+						switch {
+						case op == token.EQL && n == 2, op == token.GTR && n == 1, op == token.GEQ && n == 2, op == token.NEQ && n == 1:
+							return mk(sx, sep, true)
+						case op == token.NEQ && n == 2, op == token.LSS && n == 2, op == token.LEQ && n == 1, op == token.EQL && n == 1:
+							return mk(sx, sep, false)
+						}
+					}
+				}
+			}
+			a, b = b, a
+		}
+		a, b = c.resolve(x.X), c.resolve(x.Y)
+		// Index(x,sep) >= 0 ; < 0 ; != -1 ; == -1 ; > -1
+		if sx, sep, ok := t.searchCall(a, 1); ok {
+			if n, isN := constInt(b); isN {
+				switch {
+				case x.Op == token.GEQ && n == 0, x.Op == token.GTR && n == -1, x.Op == token.NEQ && n == -1:
+					return mk(sx, sep, true)
+				case x.Op == token.LSS && n == 0, x.Op == token.EQL && n == -1, x.Op == token.LEQ && n == -1:
+					return mk(sx, sep, false)
+				}
+			}
+		}
+	}
+	return Lit{}, false
+}
+
 func (c *Ctx) cond(v ssa.Value) Lit {
 	v = c.resolve(v)
+	if l, ok := c.hasLit(v); ok {
+		return l
+	}
 	switch x := v.(type) {
 	case *ssa.UnOp:
 		if x.Op == token.NOT {
@@ -545,4 +689,82 @@ func (c *Ctx) storeReaches(st *ssa.Store, ld ssa.Instruction) bool {
 		at = mc
 	}
 	return false
+}
+
+// ---- canonical forms of equivalent library idioms ------------------------------
+
+// sepOf: the separator of a strings search/split call as a string constant term, and the searched string.
+func (t *termer) searchCall(v ssa.Value, d int) (x ssa.Value, sep string, ok bool) {
+	call, isCall := t.c.resolve(v).(*ssa.Call)
+	if !isCall {
+		return nil, "", false
+	}
+	switch t.c.calleeName(call.Common()) {
+	case "strings.Index":
+		if s, isS := constStr(call.Call.Args[1]); isS {
+			return call.Call.Args[0], s, true
+		}
+	case "strings.IndexByte", "strings.IndexRune":
+		if k, isK := constInt(call.Call.Args[1]); isK && k > 0 && k < 128 {
+			return call.Call.Args[0], string(rune(k)), true
+		}
+		if k, isK := call.Call.Args[1].(*ssa.Const); isK && k.Value != nil {
+			if n, ok2 := constant.Int64Val(k.Value); ok2 && n > 0 && n < 128 {
+				return call.Call.Args[0], string(rune(n)), true
+			}
+		}
+	}
+	return nil, "", false
+}
+
+// splitCall: strings.SplitN(x, sep, 2) with constant sep.
+func (t *termer) splitCall(v ssa.Value) (x ssa.Value, sep string, ok bool) {
+	call, isCall := t.c.resolve(v).(*ssa.Call)
+	if !isCall || t.c.calleeName(call.Common()) != "strings.SplitN" {
+		return nil, "", false
+	}
+	s, isS := constStr(call.Call.Args[1])
+	n, isN := constInt(call.Call.Args[2])
+	if !isS || !isN || n != 2 || s == "" {
+		return nil, "", false
+	}
+	return call.Call.Args[0], s, true
+}
+
+// canonIndexed: parts[0] / parts[1] of SplitN(x, sep, 2)  →  before(x,sep) / after(x,sep)
+func (t *termer) canonIndexed(x ssa.Value, idx ssa.Value, d int) (string, bool) {
+	sx, sep, ok := t.splitCall(x)
+	if !ok {
+		return "", false
+	}
+	k, isK := constInt(idx)
+	if !isK {
+		return "", false
+	}
+	switch k {
+	case 0:
+		return "before(" + t.term(sx, d+1) + ", " + strconv.Quote(sep) + ")", true
+	case 1:
+		return "after(" + t.term(sx, d+1) + ", " + strconv.Quote(sep) + ")", true
+	}
+	return "", false
+}
+
+// canonSlice: x[:Index(x,sep)] → before(x,sep);  x[Index(x,sep)+len(sep):] → after(x,sep)
+func (t *termer) canonSlice(s *ssa.Slice, d int) (string, bool) {
+	if s.Low == nil && s.High != nil {
+		if sx, sep, ok := t.searchCall(s.High, d); ok && t.term(sx, d+1) == t.term(s.X, d+1) {
+			return "before(" + t.term(s.X, d+1) + ", " + strconv.Quote(sep) + ")", true
+		}
+	}
+	if s.High == nil && s.Low != nil {
+		if bo, ok := t.c.resolve(s.Low).(*ssa.BinOp); ok && bo.Op == token.ADD {
+			if k, isK := constInt(bo.Y); isK {
+				if sx, sep, ok := t.searchCall(bo.X, d); ok && int(k) == len(sep) && t.term(sx, d+1) == t.term(s.X, d+1) {
+					return "after(" + t.term(s.X, d+1) + ", " + strconv.Quote(sep) + ")", true
+				}
+			}
+		}
+	}
+	return "", false
 }
